@@ -2,7 +2,7 @@
    accepts <lanes> <fifo|prio> <labels>      labels: comma separated, "." = none
        a:<job>:<h|n>:<ordhex>:<o|lane>  t:<lane>:<job>  f:<lane>  s:<lane>  c  d  x:<lane>
      -> OK <terminal 0|1> <finished jobs, oldest first, '.' if none>  |  REJECT <index of the first label not enabled>
-   saccepts <labels>                         serial queue; same label spelling (lane and priority fields ignored)
+   saccepts <v1|v0> <labels>                 serial queue (v1 = as repaired by 6dc9f85, v0 = before); same label spelling (lane and priority fields ignored)
      -> OK <exited 0|1> <finished, oldest first> <lost jobs: queued behind the sentinel when the worker left>  |  REJECT <index>
    status <raw wait status>                  -> Succeeded | Failed | Cancelled
    launch <cancelled> <closed> <noargs> <none|raw> <waiterr>   -> <spawned 0|1> <status>
@@ -51,12 +51,13 @@ let () =
           | Some i -> "REJECT " ^ dec_of_n i
           | None -> "ERR accepts/first_reject disagree"))
     | _ -> "ERR args");
-  register "saccepts" (function [ls] ->
+  register "saccepts" (function [v; ls] ->
+      let rep = (v = "v1") in
       let labels = if ls = "." then [] else List.map slabel_of_string (String.split_on_char ',' ls) in
-      (match saccepts sinit labels with
+      (match saccepts_gen rep sinit labels with
        | Some s -> "OK " ^ b2s s.ss_exited ^ " " ^ nlist (List.rev s.ss_finished) ^ " " ^ nlist (slost s)
        | None ->
-         (match sfirst_reject sinit labels N0 with
+         (match sfirst_reject rep sinit labels N0 with
           | Some i -> "REJECT " ^ dec_of_n i
           | None -> "ERR saccepts/sfirst_reject disagree"))
     | _ -> "ERR args");
